@@ -333,6 +333,14 @@ func checkC04(c *Check) {
 							}
 						}
 					}
+					if !okSt && l.Key == slot && ok {
+						// a decisive result stored before it is tested is harmless when the
+						// scan cannot go on with it: no path from the store to the loop head
+						heads := edgeSources(spg, AnyOf(RangeNext("p1.OCSPServer"), RangeDone("p1.OCSPServer")))
+						if _, goesOn := c.search(spg, []*PState{e.To}, inSet(heads), nil); !goesOn {
+							okSt = true
+						}
+					}
 					if !okSt {
 						badSt = append(badSt, c.P.pos(l.Node.Pos)+": "+l.String())
 					}
